@@ -12,7 +12,15 @@ def run(prop, tier, seed, scratch, cfg, out, model_ok):
     f = globals().get("extra_" + prop)
     if f is None:
         return []
-    return f(tier, seed, scratch, cfg, out)
+    try:
+        return f(tier, seed, scratch, cfg, out)
+    except Exception:
+        # the harness could not make sense of what the implementation returned (it never happens on the pinned tree):
+        # that is a broken tie, to be reported, not a reason to give up the check
+        import traceback
+        return [{"kind": "no-failing-input-found",
+                 "no_longer_checks": ["property harness of %s failed while interpreting the implementation's answers" % prop],
+                 "traceback": traceback.format_exc()[-2500:]}]
 
 
 def _session(scratch, s, profile, nops, cfg, family=None):
@@ -192,7 +200,48 @@ def extra_C14(tier, seed, scratch, cfg, out):
                 im.close()
             if hits:
                 break
-    out.extra["C14"] = {"reads_with_image_compared_before_after": reads, "reads_on_crash_cut_states": cut_reads}
+    # a read-only request through an index object that has been closed: it may be refused, it must not touch the files
+    closed_reads = 0
+    if not hits:
+        import os as _os
+        for variant in ("created", "reopened", "overwritten"):
+            im = Impl(scratch)
+            try:
+                r = random.Random(seed * 7907 + 14700)
+                ses = Session(im, r, {"g1": 1.0, "read_rate": 0.0, "w": {"reopen": 0, "clear": 0}}, cfg=cfg)
+                ses.init()
+                for _ in range(5):
+                    getattr(ses, "w_" + r.choice(["addpage", "addlinks", "batch", "create"]))()
+                if variant == "reopened":
+                    ses.w_reopen()
+                if variant == "overwritten":
+                    ses.do("overwrite domain []"); ses.w_addpage(); ses.w_addlinks()
+                folder, t = im.folder, im.t
+                before = im.images()
+                t.close()
+                for q in ("count_pages", "count_links", "metrics", "get_webentities_links", "pages"):
+                    try:
+                        if q == "pages":
+                            list(t.pages_iter())
+                        else:
+                            getattr(t, q)()
+                    except Exception:
+                        pass
+                    closed_reads += 1
+                    with open(_os.path.join(folder, "lru_trie.dat"), "rb") as f1, open(_os.path.join(folder, "link_store.dat"), "rb") as f2:
+                        after = (f1.read(), f2.read())
+                    if after != before:
+                        hits.append({"kind": "query-modifies-store", "lines": ses.lines + ["(close)", "(%s on the closed object)" % q],
+                                     "finding": {"line": q, "reason": "a read-only request through a closed index object changed the files",
+                                                 "lengths_before": [len(before[0]), len(before[1])], "lengths_after": [len(after[0]), len(after[1])]}})
+                        break
+                im.t = None
+            finally:
+                im.close()
+            if hits:
+                break
+    out.extra["C14"] = {"reads_with_image_compared_before_after": reads, "reads_on_crash_cut_states": cut_reads,
+                        "reads_on_closed_objects": closed_reads}
     return hits[:1]
 
 
@@ -214,11 +263,29 @@ def extra_C15(tier, seed, scratch, cfg, out):
                              "finding": {"line": lines[k], "file": a[0][:1500], "memory": b[0][:1500],
                                          "reason": "in-memory and on-disk index answer differently (or end with different bytes)"}})
                 break
-        # the memory-mapped reader returns the same blocks and nodes
+        # the memory-mapped reader returns the same blocks and nodes — also when it is asked for again after the store has
+        # grown (or been cleared) and the earlier readers are still around
         im = Impl(scratch)
+        keep_maps = []
         try:
-            for line in ses.lines:
+            for k, line in enumerate(ses.lines):
                 im.exec(line)
+                if k % 7 == 3 and im.t is not None and not line.startswith(("cut", "co ")):
+                    try:
+                        im._flush()
+                        st0 = im.t.lru_trie_storage
+                        m0 = st0.map()
+                        keep_maps.append(m0)
+                        last = len(st0) - 128
+                        if last >= 0:
+                            mapped += 1
+                            x, y = m0.read(last), st0.read(last)
+                            if x is None or y is None or bytes(x) != bytes(y):
+                                hits.append({"kind": "mmap-differs", "lines": ses.lines[: k + 1],
+                                             "finding": {"block": last, "reason": "map().read of the last block differs from the file read (reader asked for again after the store changed)"}})
+                                break
+                    except ValueError:
+                        pass                      # an empty file cannot be mapped
             im._flush()
             from traph.lru_trie.node import LRUTrieNode
             st = im.t.lru_trie_storage
@@ -245,6 +312,11 @@ def extra_C15(tier, seed, scratch, cfg, out):
             finally:
                 mm.release()
         finally:
+            for m0 in keep_maps:
+                try:
+                    m0.release()
+                except Exception:
+                    pass
             im.close()
         if len(hits) >= 2:
             break
@@ -275,6 +347,8 @@ def c17_clauses(x):
         v = H.lru_variations(x)
     except Exception as e:  # noqa
         return ("expansion fails with %s" % type(e).__name__, None)
+    if not isinstance(v, (list, tuple)) or any(not isinstance(y, bytes) for y in v):
+        return ("the expansion is not a list of byte strings", repr(v)[:300])
     if not v or v[0] != x:
         return ("the prefix itself is not listed first", [repr(y) for y in v])
     if len(set(v)) != len(v):
@@ -291,6 +365,8 @@ def c17_clauses(x):
             vy = H.lru_variations(y)
         except Exception as e:  # noqa
             return ("expanding the member %r fails with %s" % (y, type(e).__name__), None)
+        if not isinstance(vy, (list, tuple)) or any(not isinstance(z, bytes) for z in vy):
+            return ("expanding the member %r does not give a list of byte strings" % y, repr(vy)[:300])
         if set(vy) != set(v):
             return ("not closed: expanding the member %r yields a different set" % y,
                     {"of_prefix": [repr(z) for z in v], "of_member": [repr(z) for z in vy]})
